@@ -5,6 +5,7 @@ package chainsim
 import (
 	"bytes"
 	"context"
+	"crypto"
 	"crypto/ecdsa"
 	"crypto/rand"
 	"crypto/sha256"
@@ -12,10 +13,12 @@ import (
 	"crypto/x509/pkix"
 	"encoding/asn1"
 	"fmt"
+	"sort"
 	"testing"
 	"time"
 
 	"github.com/scionproto/scion/pkg/addr"
+	"github.com/scionproto/scion/pkg/scrypto/cms/oid"
 	"github.com/scionproto/scion/pkg/scrypto/cms/protocol"
 	"github.com/scionproto/scion/pkg/scrypto/cppki"
 	"github.com/scionproto/scion/pkg/scrypto/signed"
@@ -26,11 +29,13 @@ import (
 
 var forgeRules = []string{"two-signers", "signer-is-ca", "signer-stranger", "tamper.payload", "tamper.signature",
 	"csr-other-ia", "csr-no-ia", "csr-bad-selfsig", "certs-three", "certs-one", "tamper.truncate", "tamper.certs",
-	"reencode"}
+	"reencode", "signing-time", "signing-time"}
 
 // benign tells whether the transport transformation leaves the request valid ("reencode": the message
 // is parsed and re-serialised on the way, nothing else; it also validates the tamper machinery).
-func benign(rule string) bool { return rule == "" || rule == "reencode" }
+// "signing-time": the signingTime attribute is an unauthenticated claim of the requester; the statement
+// judges the chain at the time of the request, so such a request is valid iff its chain is valid now.
+func benign(rule string) bool { return rule == "" || rule == "reencode" || rule == "signing-time" }
 
 func runC37Honest(r *core.Run) { runC37(r, false) }
 func runC37Forged(r *core.Run) { runC37(r, true) }
@@ -83,6 +88,37 @@ func cms(pld []byte, certs []*x509.Certificate, key *ecdsa.PrivateKey) *protocol
 	return sd
 }
 
+// cmsAt builds the CMS message like cms, but with a signingTime attribute chosen by the client; the
+// signature is recomputed over the altered signed attributes with the client's key.
+func cmsAt(pld []byte, certs []*x509.Certificate, key *ecdsa.PrivateKey, at time.Time) *protocol.SignedData {
+	sd := cms(pld, certs, key)
+	si := &sd.SignerInfos[0]
+	st, err := protocol.NewAttribute(oid.AttributeSigningTime, at.UTC())
+	if err != nil {
+		infra("signing time attribute: %v", err)
+	}
+	var attrs protocol.Attributes
+	for _, a := range si.SignedAttrs {
+		if a.Type.Equal(oid.AttributeSigningTime) {
+			a = st
+		}
+		attrs = append(attrs, a)
+	}
+	sort.Slice(attrs, func(i, j int) bool {
+		return bytes.Compare(attrs[i].RawValue.FullBytes, attrs[j].RawValue.FullBytes) < 0
+	})
+	si.SignedAttrs = attrs
+	in, err := si.SignedAttrs.MarshaledForSigning()
+	if err != nil {
+		infra("marshal attrs: %v", err)
+	}
+	d := sha256.Sum256(in)
+	if si.Signature, err = key.Sign(rand.Reader, d[:], crypto.SHA256); err != nil {
+		infra("sign: %v", err)
+	}
+	return sd
+}
+
 func der(sd *protocol.SignedData) []byte {
 	b, err := sd.ContentInfoDER()
 	if err != nil {
@@ -131,6 +167,30 @@ func runC37(r *core.Run, forged bool) {
 					rule = forgeRules[r.Choice("req.rule", len(forgeRules))]
 					if len(act) > 0 && r.Choice("req.forge.onvalid", 4) != 1 {
 						c = act[r.Choice("req.actchain", len(act))]
+					}
+				}
+				// "signing-time": the client hand-crafts the CMS signingTime attribute (signature computed
+				// over it correctly). The attribute is the client's claim; what counts is the chain now.
+				var claimed time.Time
+				if rule == "signing-time" {
+					// preferably the holder of an expired chain that was fine shortly before it expired
+					var old []*chainEnt
+					for _, x := range w.chains {
+						t := x.asNA.Add(-30 * time.Minute)
+						if ok, _ := w.active(x, now); ok || !t.Before(now) || latest == nil {
+							continue
+						}
+						if x.verifies(latest, t) || (latest.inGrace(now) && pred != nil && x.verifies(pred, t)) {
+							old = append(old, x)
+						}
+					}
+					if len(old) > 0 && r.Choice("req.st.expired", 4) != 1 {
+						c = old[r.Choice("req.st.chain", len(old))]
+						claimed = c.asNA.Add(-30 * time.Minute)
+						r.Probe("backdated-request-with-expired-chain")
+					} else {
+						claimed = []time.Time{now.Add(-hour), c.asNB.Add(hour), now.Add(-1000 * hour),
+							now.Add(30 * time.Second)}[r.Choice("req.st.time", 4)]
 					}
 				}
 				if c.asNB.Equal(now) || c.asNA.Equal(now) {
@@ -188,6 +248,8 @@ func runC37(r *core.Run, forged bool) {
 					raw = der(cms(csrDER, []*x509.Certificate{c.as, c.ca.cert, c.ca.root.cert}, c.key.priv))
 				case "certs-one":
 					raw = der(cms(csrDER, []*x509.Certificate{c.as}, c.key.priv))
+				case "signing-time":
+					raw = der(cmsAt(csrDER, c.certs, c.key.priv, claimed))
 				}
 				// transport with tamper faults
 				switch rule {
